@@ -358,8 +358,14 @@ def rand_cfg(rng, inputs=("UNM", "UNM", "MAT", "SEM"), matchers=("naive", "naive
     dm = rng.choice(decisions)
     dthr = rng.choice(gen.ASSD_THRESHOLDS if dm == "ASSD" else gen.THRESHOLDS)
     gm = rng.choice([["DSC"], ["DSC", "IOU"], ["DSC", "IOU", "RVD", "ASSD"], ["ASSD"], ["RVD"]])
+    extra = {}
+    if rng.random() < 0.25:
+        # instance metrics other than the full list (the decision metric must be among them); the
+        # global metrics are chosen independently of them
+        im = [m for m in ("DSC", "IOU", "ASSD", "RVD") if rng.random() < 0.4 or m == dm]
+        extra["im"] = im or [rng.choice(["DSC", "IOU", "RVD"])]
     return default_cfg(input=rng.choice(inputs), matcher=rng.choice(matchers), mm=mm, thr=list(thr), dm=dm,
-                       dthr=list(dthr), gm=gm, backend=rng.choice(["default", "cc3d", "scipy"]),
+                       dthr=list(dthr), gm=gm, backend=rng.choice(["default", "cc3d", "scipy"]), **extra,
                        h=handler if handler is not None else rng.choice([DEFAULT_H, DISTINCT_H, rand_handler(rng)]))
 
 
@@ -389,10 +395,18 @@ def gen_eval_records(rng, n_random, exhaustive_shapes, cfg_fn, max_vox=48, pair_
         elif rng.random() < 0.15:
             # an overlapping prediction/reference pair whose label values add up to 2^8
             g = "random-wrapsum"
-            both = [(int(p), int(r)) for p, r in zip(pred.ravel(), ref.ravel()) if p and r]
+            if rng.random() < 0.5:
+                # the wrapping pair is isolated: more than the crop padding away from everything else
+                g = "random-wrapsum-far"
+                pred, ref, p0, r0 = gen.far_block_pair(rng, joint=cfg["input"] == "MAT")
+                both = [(p0, r0)]
+            else:
+                both = [(int(p), int(r)) for p, r in zip(pred.ravel(), ref.ravel()) if p and r]
             if both:
                 p0, r0 = rng.choice(both)
-                if cfg["input"] == "MAT":
+                if cfg["input"] == "MAT" and p0 != r0:
+                    pass
+                elif cfg["input"] == "MAT":
                     pred = np.where(pred == p0, 128, np.where(pred == 128, p0, pred))
                     ref = np.where(ref == p0, 128, np.where(ref == 128, p0, ref))
                 else:
